@@ -51,7 +51,7 @@ func TestVerifC07(t *testing.T) {
 		Scenario: c07Scenario,
 		EnumN:    func(string) int { return len(c07Enum) },
 		EnumAt:   func(_ string, i int) []int { return c07Enum[i] },
-		Runs:     map[string]int{"quick": 3000, "thorough": 500000},
+		Runs:     map[string]int{"quick": 20000, "thorough": 800000},
 		Real:     []string{"ingest pipeline: HandleRegUpdates -> parseRegMessage -> NewRegistrationC2SWrapper -> ingestRegistration", "ValidateRegistration, covert policy, phantom blocklist, register/announce", "tryShareRegistrationOverAPI / GenerateC2SWrapper", "min / prefix / obfs4 parameter parsing and port selection"},
 		Stub:     []string{"liveness.Tester (table + call recorder)", "peer-station API (http.Post seam, recorder)", "detector (announcement recorder)", "ZMQ (harness writes into the ingest channel)"},
 		Rule: "enumerated: transport {min, prefix, obfs4} x source {API, Detector, BidirectionalAPI, DNS, DetectorPrescan} x each of 20 ways to break (or not) exactly one admission condition, as a single message; random: 1-8 messages per run with random combinations of breaks, duplicates, share-over-API on/off. " +
